@@ -13,39 +13,39 @@ open SV
 
 theorem nonAscii_zero_iff (b0 b1 b2 b3 b4 b5 b6 b7 : BitVec 8) :
     Gen.utf8_non_ascii (leWord b0 b1 b2 b3 b4 b5 b6 b7) = 0#64 ↔ (b0 < 0x80#8 ∧ b1 < 0x80#8 ∧ b2 < 0x80#8 ∧ b3 < 0x80#8 ∧ b4 < 0x80#8 ∧ b5 < 0x80#8 ∧ b6 < 0x80#8 ∧ b7 < 0x80#8) := by
-  simp only [Gen.utf8_non_ascii, leWord]; bv_decide
+  simp only [Gen.utf8_non_ascii, leWord]; bv_decide (timeout := 300)
 
 theorem nonAscii_first_0 (b0 b1 b2 b3 b4 b5 b6 b7 : BitVec 8) (h0 : ¬ b0 < 0x80#8) :
     (Gen.utf8_non_ascii (leWord b0 b1 b2 b3 b4 b5 b6 b7)).ctz >>> 3 = 0#64 := by
-  simp only [Gen.utf8_non_ascii, leWord]; bv_decide
+  simp only [Gen.utf8_non_ascii, leWord]; bv_decide (timeout := 300)
 
 theorem nonAscii_first_1 (b0 b1 b2 b3 b4 b5 b6 b7 : BitVec 8) (h0 : b0 < 0x80#8) (h1 : ¬ b1 < 0x80#8) :
     (Gen.utf8_non_ascii (leWord b0 b1 b2 b3 b4 b5 b6 b7)).ctz >>> 3 = 1#64 := by
-  simp only [Gen.utf8_non_ascii, leWord]; bv_decide
+  simp only [Gen.utf8_non_ascii, leWord]; bv_decide (timeout := 300)
 
 theorem nonAscii_first_2 (b0 b1 b2 b3 b4 b5 b6 b7 : BitVec 8) (h0 : b0 < 0x80#8) (h1 : b1 < 0x80#8) (h2 : ¬ b2 < 0x80#8) :
     (Gen.utf8_non_ascii (leWord b0 b1 b2 b3 b4 b5 b6 b7)).ctz >>> 3 = 2#64 := by
-  simp only [Gen.utf8_non_ascii, leWord]; bv_decide
+  simp only [Gen.utf8_non_ascii, leWord]; bv_decide (timeout := 300)
 
 theorem nonAscii_first_3 (b0 b1 b2 b3 b4 b5 b6 b7 : BitVec 8) (h0 : b0 < 0x80#8) (h1 : b1 < 0x80#8) (h2 : b2 < 0x80#8) (h3 : ¬ b3 < 0x80#8) :
     (Gen.utf8_non_ascii (leWord b0 b1 b2 b3 b4 b5 b6 b7)).ctz >>> 3 = 3#64 := by
-  simp only [Gen.utf8_non_ascii, leWord]; bv_decide
+  simp only [Gen.utf8_non_ascii, leWord]; bv_decide (timeout := 300)
 
 theorem nonAscii_first_4 (b0 b1 b2 b3 b4 b5 b6 b7 : BitVec 8) (h0 : b0 < 0x80#8) (h1 : b1 < 0x80#8) (h2 : b2 < 0x80#8) (h3 : b3 < 0x80#8) (h4 : ¬ b4 < 0x80#8) :
     (Gen.utf8_non_ascii (leWord b0 b1 b2 b3 b4 b5 b6 b7)).ctz >>> 3 = 4#64 := by
-  simp only [Gen.utf8_non_ascii, leWord]; bv_decide
+  simp only [Gen.utf8_non_ascii, leWord]; bv_decide (timeout := 300)
 
 theorem nonAscii_first_5 (b0 b1 b2 b3 b4 b5 b6 b7 : BitVec 8) (h0 : b0 < 0x80#8) (h1 : b1 < 0x80#8) (h2 : b2 < 0x80#8) (h3 : b3 < 0x80#8) (h4 : b4 < 0x80#8) (h5 : ¬ b5 < 0x80#8) :
     (Gen.utf8_non_ascii (leWord b0 b1 b2 b3 b4 b5 b6 b7)).ctz >>> 3 = 5#64 := by
-  simp only [Gen.utf8_non_ascii, leWord]; bv_decide
+  simp only [Gen.utf8_non_ascii, leWord]; bv_decide (timeout := 300)
 
 theorem nonAscii_first_6 (b0 b1 b2 b3 b4 b5 b6 b7 : BitVec 8) (h0 : b0 < 0x80#8) (h1 : b1 < 0x80#8) (h2 : b2 < 0x80#8) (h3 : b3 < 0x80#8) (h4 : b4 < 0x80#8) (h5 : b5 < 0x80#8) (h6 : ¬ b6 < 0x80#8) :
     (Gen.utf8_non_ascii (leWord b0 b1 b2 b3 b4 b5 b6 b7)).ctz >>> 3 = 6#64 := by
-  simp only [Gen.utf8_non_ascii, leWord]; bv_decide
+  simp only [Gen.utf8_non_ascii, leWord]; bv_decide (timeout := 300)
 
 theorem nonAscii_first_7 (b0 b1 b2 b3 b4 b5 b6 b7 : BitVec 8) (h0 : b0 < 0x80#8) (h1 : b1 < 0x80#8) (h2 : b2 < 0x80#8) (h3 : b3 < 0x80#8) (h4 : b4 < 0x80#8) (h5 : b5 < 0x80#8) (h6 : b6 < 0x80#8) (h7 : ¬ b7 < 0x80#8) :
     (Gen.utf8_non_ascii (leWord b0 b1 b2 b3 b4 b5 b6 b7)).ctz >>> 3 = 7#64 := by
-  simp only [Gen.utf8_non_ascii, leWord]; bv_decide
+  simp only [Gen.utf8_non_ascii, leWord]; bv_decide (timeout := 300)
 
 
 theorem skipAsciiTail_eq (l : List Byte) : skipAsciiTail l = (l.takeWhile (· < 0x80#8)).length := by
@@ -158,10 +158,10 @@ theorem leaf_lead_lo (h0 : ¬ b0 ≤ 0x7F#8) (h1 : b0 ≤ 0xBF#8) :
 
 theorem leaf_lead_hi (h4 : ¬ b0 ≤ 0xF7#8) :
     HeadBad (b0 :: r) ∧ firstViolation (b0 :: r) = some (.invalidLeadByte, 0) := by
-  have h0 : ¬ b0 ≤ 0x7F#8 := by bv_decide
-  have h1 : ¬ b0 ≤ 0xBF#8 := by bv_decide
-  have h2 : ¬ b0 ≤ 0xDF#8 := by bv_decide
-  have h3 : ¬ b0 ≤ 0xEF#8 := by bv_decide
+  have h0 : ¬ b0 ≤ 0x7F#8 := by bv_decide (timeout := 300)
+  have h1 : ¬ b0 ≤ 0xBF#8 := by bv_decide (timeout := 300)
+  have h2 : ¬ b0 ≤ 0xDF#8 := by bv_decide (timeout := 300)
+  have h3 : ¬ b0 ≤ 0xEF#8 := by bv_decide (timeout := 300)
   constructor
   · rw [headBad_cons]
     have : step .start b0 = .dead := by st_decide
@@ -171,7 +171,7 @@ theorem leaf_lead_hi (h4 : ¬ b0 ≤ 0xF7#8) :
 
 macro "byte_decide" : tactic =>
   `(tactic| (simp only [Byte, inR, isContinuationByte, isContByte, cp2, cp3, cp4] at *
-             bv_decide))
+             bv_decide (timeout := 300)))
 
 theorem hb1 (h : step .start b0 = .dead) : HeadBad (b0 :: r) := by
   rw [headBad_cons, h]; exact neverStart_dead _
@@ -194,16 +194,16 @@ theorem hbt3 (h1 : step .start b0 ≠ .start) (h2 : step (step .start b0) b1 ≠
   rw [headBad_cons, neverStart_cons, neverStart_cons, neverStart_nil]; exact ⟨h1, h2, h3⟩
 
 theorem dl2 (h1 : ¬ b0 ≤ 0xBF#8) (h2 : b0 ≤ 0xDF#8) : declaredLen b0 = 2 := by
-  have h0 : ¬ b0 ≤ 0x7F#8 := by bv_decide
+  have h0 : ¬ b0 ≤ 0x7F#8 := by bv_decide (timeout := 300)
   simp [declaredLen, h0, h1, h2]
 theorem dl3 (h2 : ¬ b0 ≤ 0xDF#8) (h3 : b0 ≤ 0xEF#8) : declaredLen b0 = 3 := by
-  have h0 : ¬ b0 ≤ 0x7F#8 := by bv_decide
-  have h1 : ¬ b0 ≤ 0xBF#8 := by bv_decide
+  have h0 : ¬ b0 ≤ 0x7F#8 := by bv_decide (timeout := 300)
+  have h1 : ¬ b0 ≤ 0xBF#8 := by bv_decide (timeout := 300)
   simp [declaredLen, h0, h1, h2, h3]
 theorem dl4 (h3 : ¬ b0 ≤ 0xEF#8) (h4 : b0 ≤ 0xF7#8) : declaredLen b0 = 4 := by
-  have h0 : ¬ b0 ≤ 0x7F#8 := by bv_decide
-  have h1 : ¬ b0 ≤ 0xBF#8 := by bv_decide
-  have h2 : ¬ b0 ≤ 0xDF#8 := by bv_decide
+  have h0 : ¬ b0 ≤ 0x7F#8 := by bv_decide (timeout := 300)
+  have h1 : ¬ b0 ≤ 0xBF#8 := by bv_decide (timeout := 300)
+  have h2 : ¬ b0 ≤ 0xDF#8 := by bv_decide (timeout := 300)
   simp [declaredLen, h0, h1, h2, h3, h4]
 
 /-! two-byte sequences (`C0..DF`) -/
